@@ -58,8 +58,8 @@ def _pair(rng, vr=False, cheap=False):
     if rng.random() < 0.15:
         t = gen.spell_alpha(rng, trgb, rng.choice((0.25, 0.5, 0.9, 1.0)))[0]
     else:
-        t = gen.spell(rng, trgb, gen.CSS_SPELLINGS + gen.API_ONLY_SPELLINGS)[0]
-    b = gen.spell(rng, bg, gen.CSS_SPELLINGS + gen.API_ONLY_SPELLINGS)[0]
+        t = gen.spell(rng, trgb, gen.CSS_SPELLINGS + gen.API_ONLY_SPELLINGS + (gen.EXOTIC_API_SPELLINGS if rng.random() < 0.3 else ()))[0]
+    b = gen.spell(rng, bg, gen.CSS_SPELLINGS + gen.API_ONLY_SPELLINGS + (gen.EXOTIC_API_SPELLINGS if rng.random() < 0.2 else ()))[0]
     if rng.random() < 0.12:
         b = gen.spell_alpha(rng, bg, rng.choice((0.1, 0.5, 0.9)))[0]  # translucent background (composited over white)
     if rng.random() < 0.06:
